@@ -428,9 +428,11 @@ def lemma_registration_matches_loader():
                         assigned.add(t.value.id)
         registered = {c for c, on in flags.items() if on}
         if assigned:
-            st.oblige("group %s: registered on %s == classes given a class-level value by %s.%s" % (
-                names[0], sorted(registered), target[0], target[1]), z3.BoolVal(assigned == registered), kind="lemma",
-                info={"assigned": sorted(assigned), "registered": sorted(registered)}, assume_after=False)
+            # the name is independent of what the sources say (a changed registration must fail THIS obligation)
+            st.oblige("group %s: classes registered for lazy loading == classes given a class-level value by its loader" % names[0],
+                      z3.BoolVal(assigned == registered), kind="lemma",
+                      info={"assigned": sorted(assigned), "registered": sorted(registered), "loader": "%s.%s" % target},
+                      assume_after=False)
     return [st]
 
 
